@@ -1,23 +1,114 @@
 package glang
 
-import "verifharness/vread"
+import (
+	"fmt"
 
-// Sequential fallbacks; the thread scheduler (C03) replaces these when
-// in.sched != nil (see threads.go).
+	"verifharness/vread"
+)
 
-type sched struct{}
-type thread struct{}
+// Threads and scheduling (C03).
+//
+// Each GooseLang thread runs in its own goroutine, but only one runs at a
+// time: a thread hands control back to the scheduler at scheduling points
+// (lock.acquire, the re-acquire of condWait, waitgroup.Wait, time.Sleep and
+// thread end). For data-race-free programs interleaving at these points only
+// loses no terminal result: everything a thread does between two of its
+// scheduling points is ordered with other threads' conflicting accesses by
+// the synchronisation operations themselves.
+//
+// The scheduler is stateless: a run is determined by a sequence of choices
+// (index of the runnable thread picked at each scheduling point with more
+// than one runnable thread). Explore enumerates choice sequences depth-first.
 
-func (in *Interp) syncPoint(what string) {}
+type threadState int
+
+const (
+	tsRunnable threadState = iota
+	tsWantLock             // blocked until the lock is free
+	tsCondWait             // released the lock in condWait: runnable once another thread has taken a step
+	tsWgWait               // blocked until the waitgroup counter is 0
+	tsDone
+)
+
+type thread struct {
+	id      int
+	state   threadState
+	lock    VLoc // tsWantLock
+	wg      VLoc // tsWgWait
+	sinceEp int  // tsCondWait: epoch at which it started waiting
+	resume  chan struct{}
+	outcome *Outcome // set when the thread finished abnormally (stuck etc.)
+	result  Val
+	killed  bool
+}
+
+type sched struct {
+	in      *Interp
+	cur     *thread
+	threads []*thread
+	yield   chan *thread
+	epoch   int // incremented every time a thread is resumed
+	prefix  []int
+	pos     int
+	trace   []choicePoint
+	maxSteps int
+	steps   int
+}
+
+type choicePoint struct {
+	options int
+	chosen  int
+}
+
+// ThreadedOutcome is the result of one complete run under one schedule.
+type ThreadedOutcome struct {
+	Main      Outcome  // outcome of the main thread
+	Deadlock  bool     // main thread could not finish: no runnable thread
+	StuckInfo []string // threads (other than main) that got stuck
+	Aborted   bool     // step bound exceeded
+	Trace     []int    // choices taken
+	Final     *Interp  // the interpreter (heap) after the run, for decoding results
+	options   []int
+}
+
+func (in *Interp) syncPoint(what string) {
+	if in.sched == nil {
+		return
+	}
+	t := in.sched.cur
+	t.state = tsRunnable
+	in.sched.park(t)
+}
+
+// park hands control to the scheduler and waits to be resumed.
+func (s *sched) park(t *thread) {
+	s.yield <- t
+	<-t.resume
+	if t.killed {
+		panic(abortRun{})
+	}
+}
 
 func (in *Interp) lockAcquire(l VLoc) {
 	c := in.cell(l, 0)
-	b, ok := (*c).(VBool)
-	if !ok {
+	if _, ok := (*c).(VBool); !ok {
 		stuck("lock.acquire on a non-lock")
 	}
-	if b {
-		stuck("lock.acquire of a held lock in a sequential execution (deadlock)")
+	if in.sched == nil {
+		if bool((*c).(VBool)) {
+			stuck("lock.acquire of a held lock in a sequential execution (deadlock)")
+		}
+		*c = VBool(true)
+		return
+	}
+	t := in.sched.cur
+	t.state = tsWantLock
+	t.lock = l
+	in.sched.park(t)
+	// the scheduler resumes a tsWantLock thread only when the lock is free
+	c = in.cell(l, 0)
+	if bool((*c).(VBool)) {
+		panic("scheduler resumed a thread whose lock is held")
 	}
 	*c = VBool(true)
 }
@@ -34,16 +125,199 @@ func (in *Interp) lockRelease(l VLoc) {
 	*c = VBool(false)
 }
 
-func (in *Interp) condBlock(c VLoc, timeout bool) {}
-func (in *Interp) condWake(c VLoc, all bool)      {}
+// condBlock is the middle of condWait: the lock has been released; GooseLang
+// condition variables wake up spuriously, so the thread only needs another
+// thread to have run (otherwise re-checking its condition is pointless).
+func (in *Interp) condBlock(c VLoc, timeout bool) {
+	if in.sched == nil {
+		return
+	}
+	t := in.sched.cur
+	t.state = tsCondWait
+	t.sinceEp = in.sched.epoch
+	in.sched.park(t)
+}
+
+func (in *Interp) condWake(c VLoc, all bool) {}
 
 func (in *Interp) wgWait(l VLoc) {
 	c := in.cell(l, 0)
-	if asInt(*c, 64, "waitgroup.Wait") != 0 {
-		stuck("waitgroup.Wait with a non-zero counter in a sequential execution (deadlock)")
+	if in.sched == nil {
+		if asInt(*c, 64, "waitgroup.Wait") != 0 {
+			stuck("waitgroup.Wait with a non-zero counter in a sequential execution (deadlock)")
+		}
+		return
 	}
+	t := in.sched.cur
+	t.state = tsWgWait
+	t.wg = l
+	in.sched.park(t)
 }
 
 func (in *Interp) fork(body vread.Expr, env *Env, sc scope) {
-	panic(unknownErr{"Fork in sequential mode"})
+	if in.sched == nil {
+		panic(unknownErr{"Fork in sequential mode"})
+	}
+	s := in.sched
+	t := &thread{id: len(s.threads), resume: make(chan struct{})}
+	s.threads = append(s.threads, t)
+	go s.runThread(t, func(ti *Interp) Val { return ti.eval(body, env, sc) })
+}
+
+// runThread is the body of a thread goroutine: waits to be scheduled, runs f,
+// reports completion.
+func (s *sched) runThread(t *thread, f func(*Interp) Val) {
+	<-t.resume
+	if t.killed {
+		return
+	}
+	aborted := false
+	func() {
+		defer func() {
+			if r := recover(); r != nil {
+				switch r := r.(type) {
+				case abortRun:
+					aborted = true
+				case stuckErr, fuelErr, unknownErr, divergeErr:
+					o := outcomeOfPanic(r)
+					t.outcome = &o
+				default:
+					t.outcome = &Outcome{Kind: Unknown, Msg: fmt.Sprintf("internal error of the interpreter: %v", r)}
+				}
+			}
+		}()
+		t.result = f(s.in)
+	}()
+	if aborted {
+		return
+	}
+	t.state = tsDone
+	s.yield <- t
+}
+
+type abortRun struct{}
+
+// runnable lists the threads that can take a step now.
+func (s *sched) runnable() []*thread {
+	var out []*thread
+	for _, t := range s.threads {
+		switch t.state {
+		case tsRunnable:
+			out = append(out, t)
+		case tsWantLock:
+			if b, ok := (*s.in.cell(t.lock, 0)).(VBool); ok && !bool(b) {
+				out = append(out, t)
+			}
+		case tsCondWait:
+			if s.epoch > t.sinceEp {
+				out = append(out, t)
+			}
+		case tsWgWait:
+			if v, ok := (*s.in.cell(t.wg, 0)).(VInt); ok && v.N == 0 {
+				out = append(out, t)
+			}
+		}
+	}
+	return out
+}
+
+// RunThreaded evaluates `name #()` with threads under the given choice
+// prefix (choices beyond the prefix default to 0).
+func RunThreaded(prog *Program, name string, fuel int64, prefix []int, maxSteps int) ThreadedOutcome {
+	in := NewInterp(prog, fuel)
+	s := &sched{in: in, yield: make(chan *thread), prefix: prefix, maxSteps: maxSteps}
+	in.sched = s
+	main := &thread{id: 0, resume: make(chan struct{})}
+	s.threads = []*thread{main}
+	pkg := prog.Main
+	d := pkg.lookupDef(name, len(pkg.Defs))
+	if d == nil {
+		return ThreadedOutcome{Main: Outcome{Kind: Unknown, Msg: "no definition " + name}}
+	}
+	go s.runThread(main, func(ti *Interp) Val {
+		f := ti.defValue(d, nil)
+		return ti.apply(f, []Val{VUnit{}})
+	})
+	var res ThreadedOutcome
+	mainDone := false
+	for {
+		r := s.runnable()
+		if len(r) == 0 {
+			if !mainDone {
+				res.Deadlock = true
+			}
+			break
+		}
+		s.steps++
+		if s.steps > maxSteps {
+			res.Aborted = true
+			break
+		}
+		pick := 0
+		if len(r) > 1 && !mainDone {
+			if s.pos < len(s.prefix) {
+				pick = s.prefix[s.pos]
+				if pick >= len(r) {
+					pick = len(r) - 1
+				}
+			}
+			s.pos++
+			res.Trace = append(res.Trace, pick)
+			res.options = append(res.options, len(r))
+		}
+		t := r[pick]
+		s.epoch++
+		t.state = tsRunnable
+		s.cur = t
+		t.resume <- struct{}{}
+		y := <-s.yield
+		if y.state == tsDone {
+			if y.outcome != nil && y.id != 0 {
+				res.StuckInfo = append(res.StuckInfo, fmt.Sprintf("thread %d: %s %s", y.id, y.outcome.Kind, y.outcome.Msg))
+			}
+			if y.id == 0 {
+				mainDone = true
+				if y.outcome != nil {
+					res.Main = *y.outcome
+				} else {
+					res.Main = Outcome{Kind: Value, Val: y.result}
+				}
+			}
+		}
+	}
+	res.Final = in
+	// unwind the goroutines of threads that never finished (all of them are parked)
+	for _, t := range s.threads {
+		if t.state != tsDone {
+			t.killed = true
+			t.resume <- struct{}{}
+		}
+	}
+	return res
+}
+
+// Explore enumerates schedules depth-first up to maxRuns runs and returns
+// every run's outcome. complete reports whether the enumeration finished.
+func Explore(prog *Program, name string, fuel int64, maxRuns, maxSteps int, visit func(ThreadedOutcome) bool) (runs int, complete bool) {
+	var prefix []int
+	for {
+		out := RunThreaded(prog, name, fuel, prefix, maxSteps)
+		runs++
+		if !visit(out) {
+			return runs, false
+		}
+		// next prefix: increment the last choice that has an untried option
+		tr, opts := out.Trace, out.options
+		i := len(tr) - 1
+		for i >= 0 && tr[i]+1 >= opts[i] {
+			i--
+		}
+		if i < 0 {
+			return runs, true
+		}
+		prefix = append(append([]int{}, tr[:i]...), tr[i]+1)
+		if runs >= maxRuns {
+			return runs, false
+		}
+	}
 }
